@@ -110,6 +110,25 @@ CLAIMS["C07"] = {
     "note": TB + "FieldSet::parse needs a schema and is exercised in C01/C19 harnesses.",
 }
 
+CLAIMS["C06"] = {
+    "technique": "Lean 4 proof (decoder model = spec semantics, all inputs) + exhaustive correspondence + independent spec decoder as oracle",
+    "text": "Theorems for all inputs: unescape_string on any sequence of valid StringCharacters yields exactly their semantic values and never panics "
+            "(unescape_string_spec, unescape_string_no_panic); unescape_block_string = BlockStringValue steps 1-9 for EVERY raw value (block_string_spec, "
+            "common_indent_spec), block slicing in range. The decoder model is hand-written from cst/node_ext.rs and tied by correspondence on ~400k lexically "
+            "valid literals (quoted ≤5/6 over 12 symbols, block ≤6/7 over 8 symbols incl. CR/LF/tab/é, random with BOM/indent structure); oracle on impl: an "
+            "independent transcription of the spec semantics in Rust, and the compiler's argument / default value / description storage.",
+    "note": TB + "The `\\\"\"\"` unescape is applied per line in code and spec model (it contains no line terminator or white space); from_cst.rs storage is checked on the implementation only.",
+}
+CLAIMS["C09"] = {
+    "technique": "Lean 4 proof (quoted form round-trips for every string) + correspondence + re-parse oracle; block form partial",
+    "text": "Theorems for EVERY Unicode string: decode(quotedForm s) = s (quoted_roundtrip), hence every value/description round-trips with no_indent "
+            "(no_indent_roundtrip) and whenever the block form is not chosen (quoted_branch_roundtrip); the block form is never chosen for strings with CR. "
+            "PARTIAL: the block-form round trip (block_roundtrip_statement) is stated but not yet proved; it is decided by correspondence of the serializer model "
+            "(262k cases: all strings ≤5/6 over {quote, backslash, LF, CR, space, tab, a, é, U+0001, U+007F} × 8 configurations incl. tab and empty prefixes and "
+            "levels 0-3) and by re-parsing every printed literal and whole documents with nested descriptions/defaults with the real parser.",
+    "note": TB + "Only white-space indent prefixes are in scope (as the property says). Lexing of the printed literal as a single token is checked on the implementation.",
+}
+
 ALL = [f"C{i:02d}" for i in range(1, 34)]
 NOT_APPLICABLE = {p: "check not built yet in this session (planned, see DESIGN.md §9); not a claim that the technique cannot apply"
                   for p in ALL if p not in CLAIMS}
